@@ -563,7 +563,12 @@ func runBackoff(c Case, res *lib.Result) string {
 	return fmt.Sprintf("mkBackoff %d [%s] [%s]", lim, strings.Join(evs, "; "), strings.Join(obs, "; "))
 }
 
-func runCase(c Case, res *lib.Result) string {
+func runCase(c Case, res *lib.Result) (ret string) {
+	defer res.Recover(c)
+	return runCaseRaw(c, res)
+}
+
+func runCaseRaw(c Case, res *lib.Result) string {
 	switch c.Kind {
 	case "backoff":
 		return runBackoff(c, res)
